@@ -5,6 +5,7 @@ SPEC  = Models/HeadingM.v (exact, over Q), extracted and run on the same inputs 
 MODEL = Models/HeadingF.v (binary64, PrimFloat), evaluated by coqc/vm_compute on generated shards
 
 failing-input search (IMPL vs exact SPEC), for every generated input x and both functions, degrees and radians:
+  * (closeness tolerance: see tol(); it is the per-input bound proved for the model, not a flat number of ulps)
   * the call returns a finite real number (scalar) / an array of the input's shape,
   * RANGE, exactly: heading in [0, 360) resp. [0, 2 pi); yaw in [-180, 180) resp. [-pi, pi) (radian bounds are the
     binary64 constants 2*math.pi / math.pi: +math.pi is excluded like +180.0),
@@ -96,6 +97,11 @@ def deg_points(ctx):
         grid = sorted(r.sample(grid, 3000))
     pts += [(k / 64.0, 'grid-1/64') for k in grid]
     pts += common_points(r, 8000 if ctx.thorough else 900, 1e6)
+    for k in (100000, -100000, 2777, -2778, 1000000):
+        for c in (0.0, 90.0, 270.0):
+            pts += [(v, 'large-magnitude') for v in nbrs(c + 360.0 * k, 2)]
+    for _ in range(2000 if ctx.thorough else 200):
+        pts.append((math.copysign(r.uniform(1e5, 6e7), r.random() - 0.5), 'large-magnitude'))
     return pts
 
 
@@ -116,6 +122,15 @@ def rad_points(ctx):
         grid = sorted(r.sample(grid, 1200))
     pts += [(k / float(step), 'grid-1/%d' % step) for k in grid]
     pts += common_points(r, 4000 if ctx.thorough else 500, 1e6)
+    # large magnitudes: a slightly wrong period constant only shows after ~1e4..1e5 turns
+    for v in (1e5, -1e5, 1e6, -1e6, 123456.789, -987654.321, 5e5, 7.5e5):
+        pts.append((v, 'large-magnitude'))
+    for k in (10000, 100000, 159154, -159154, 31831, -100001):
+        q = PI_Q * 2 * k
+        for v in nbrs(q.numerator / q.denominator, 2) + nbrs(k * (2.0 * math.pi), 1):
+            pts.append((v, 'large-magnitude'))
+    for _ in range(2000 if ctx.thorough else 300):
+        pts.append((math.copysign(r.uniform(1e5, 1e6), r.random() - 0.5), 'large-magnitude'))
     return pts
 
 
@@ -125,6 +140,15 @@ def sem_points(pts, n=240):
     ok = [x for x, _ in pts if abs(x) <= 1e6 and (x == 0.0 or abs(x) >= 1e-6)]
     step = max(1, len(ok) // n)
     return (ok[:40] + ok[40::step])[:n + 40]
+
+
+def groups(pts, unit):
+    """index lists into the input set by class, for the composed-array observations"""
+    lim_small, lim_far = (45.0, 400.0) if unit == 'deg' else (0.7, 7.0)
+    small = [i for i, (x, t) in enumerate(pts) if abs(x) < lim_small and t in ('grid-1/64', 'grid-1/1024', 'random-loguniform', 'zero')][:160]
+    wrap = [i for i, (x, t) in enumerate(pts) if t == 'wrap-neighbour' and abs(x) < 3 * lim_far][:200]
+    far = [i for i, (x, t) in enumerate(pts) if lim_far < abs(x) <= 1e6][:160]
+    return {'small': small, 'wrap': wrap, 'far': far}
 
 
 def array_lengths(ctx):
@@ -240,8 +264,37 @@ def run_model(ctx, cases, build=True):
     return res
 
 
-def tol(unit, x):
+def tol_flat(unit, x):
     return TOL_ULPS * Fraction(math.ulp(max(abs(x), SCALE[unit])))
+
+
+def _ulp(v):
+    """ulp of a real number (Fraction) in binary64 (>= Flocq's ulp: float() may round up to the next binade)"""
+    return Fraction(math.ulp(float(v)))
+
+
+PI_F = Fraction(math.pi)
+
+
+def tol(unit, x, which='h2y'):
+    """closeness tolerance for one input: the bound PROVED for the model (C19_heading_congruent_f / C19_yaw_congruent_f and
+    the radian variants): half an ulp of (quarter turn - x) for the first subtraction, half an ulp of the intermediate sums,
+    plus - radians only - what separates the binary64 constants math.pi/2, 2*math.pi from pi/2, 2 pi over the number of
+    turns removed.  Never looser than needed, so a period constant that is off by one ulp shows at |x| ~ 1e5..1e6 rad."""
+    q = Fraction(x)
+    if unit == 'deg':
+        a = 90 - q; fl_a = Fraction(90.0 - x)
+        t = _ulp(a) / 2 + Fraction(1, 2 ** 44)
+        if which == 'h2y':
+            t += _ulp(fl_a + 180) / 2 + Fraction(1, 2 ** 45)
+        return t
+    c = Fraction(math.pi / 2.0); pf = Fraction(2.0 * math.pi)
+    a = c - q; fl_a = Fraction(math.pi / 2.0 - x)
+    t = _ulp(a) / 2 + _ulp(2 * pf) / 2
+    t += abs(PI_Q / 2 - c) + (abs(fl_a) / pf + 3) * abs(2 * PI_Q - pf)
+    if which == 'h2y':
+        t += _ulp(fl_a + PI_F) / 2 + _ulp(pf) / 2 + abs(PI_Q - PI_F)
+    return t
 
 
 def circ(a, b, period):
@@ -274,9 +327,9 @@ def judge(unit, which, x, rh, spec):
     rng = '[0, 360)' if (unit, which) == ('deg', 'y2h') else '[-180, 180)' if unit == 'deg' else '[0, 2 pi)' if which == 'y2h' else '[-pi, pi)'
     if not (lo <= q < hi):
         return 'out-of-range', '%s = %r, outside %s (exact value: %.17g)' % (name, r, rng, float(spec))
-    t = tol(unit, x)
+    t = tol(unit, x, which)
     if 2 * t < H and circ(q, spec, P) > t:
-        return 'wrong-angle', '%s = %r, the angle congruent to %s - x in %s is %.17g' % (name, r, '90' if unit == 'deg' else 'pi/2', rng, float(spec))
+        return 'wrong-angle', '%s = %r, the angle congruent to %s - x in %s is %.17g (off by %.3g, tolerance %.3g)' % (name, r, '90' if unit == 'deg' else 'pi/2', rng, float(spec), float(circ(q, spec, P)), float(t))
     return None
 
 
@@ -325,7 +378,7 @@ def run(ctx):
     pts = {'deg': dedup(corp['deg'] + deg_points(ctx)), 'rad': dedup(corp['rad'] + rad_points(ctx))}
     ctx.log('points: %d deg, %d rad' % (len(pts['deg']), len(pts['rad'])))
     sem = {u: sem_points(pts[u]) for u in pts}
-    impl = run_impl(ctx, dict({u: [x.hex() for x, _ in pts[u]] for u in pts}, sem={u: [x.hex() for x in sem[u]] for u in sem}, lengths=array_lengths(ctx)))
+    impl = run_impl(ctx, dict({u: [x.hex() for x, _ in pts[u]] for u in pts}, sem={u: [x.hex() for x in sem[u]] for u in sem}, lengths=array_lengths(ctx), groups={u: groups(pts[u], u) for u in pts}))
     ctx.log('IMPL done')
 
     failures = {}      # signature-key -> (simplicity, sig, text, case)
@@ -360,7 +413,7 @@ def run(ctx):
                     ctx.count('violation:' + bad[0])
                     fail({'fn': FN[which], 'unit': unit, 'class': bad[0]}, bad[1], case, x)
                 else:
-                    if 2 * tol(unit, x) >= HALF_TURN[unit]:
+                    if 2 * tol(unit, x, which) >= HALF_TURN[unit]:
                         ctx.count('range-only(|x| too large for closeness)')
                     model_cases.append((MODEL_FN[(which, unit)], x)); model_slots.append((case, rs))
         # round trips: inverse up to a full turn, observed directly on the implementation
@@ -369,7 +422,7 @@ def run(ctx):
             for i, (x, tag) in enumerate(pts[unit]):
                 rh = rt[key][i]
                 ctx.count('roundtrip')
-                t = 2 * tol(unit, x)
+                t = 2 * tol_flat(unit, x)
                 if rh.startswith(('EXC:', 'TYPE:')) or 2 * t >= HALF_TURN[unit]:
                     continue
                 r = float.fromhex(rh)
@@ -388,12 +441,13 @@ def run(ctx):
                             'detail': it['detail'], 'length': it.get('length'), 'inputs_hex': [x.hex() for x in sem[it['unit']]]})
     for u in sem:
         ctx.count('array-semantics inputs:%s' % u, len(sem[u]))
-    # advisory: which unit a call without `deg` uses (not part of the property; never an alarm)
+    # note for the evidence (the default unit is also a violation class of the argument-form observations: the analysis
+    # code of the package calls yaw_to_heading(array) without `deg`)
     du = impl.get('default_unit', {})
     for which in ('y2h', 'h2y'):
         got = du.get(which, [])
         same = got == impl['%s_deg' % which]['scalar'][:len(got)]
-        ctx.notes.append('advisory: %s(x) without deg %s %s(x, deg=True) on %d inputs' % (FN[which], 'equals' if same else 'DIFFERS from', FN[which], len(got)))
+        ctx.notes.append('default unit: %s(x) without deg %s %s(x, deg=True) on %d inputs' % (FN[which], 'equals' if same else 'DIFFERS from', FN[which], len(got)))
     ctx.log('IMPL vs SPEC done: %d failing signature(s)' % len(failures))
     for k in sorted(failures):
         _, sig, text, case = failures[k]
@@ -418,9 +472,9 @@ def run(ctx):
                     if not any(s.startswith(('EXC', 'TYPE')) for s in impl['y2h_' + u]['scalar']) else 'n/a'})
     ctx.coverage['rule'] = ('degrees: every multiple of 45 in [-1080,1080]; %s of the grid k/64 over that interval; 4 nextafter neighbours on each side of every multiple of 90 in it '
                             'and of 0/90/180/270 + 360k for k = +-10, +-1000, 12345, -2912, +-2^20; +-2^k for k=-60..60; 2^100..2^1023, DBL_MAX; denormals and DBL_MIN; +-0; '
-                            'uniform and log-uniform random magnitudes up to 1e6.  Array calls at lengths 0..262145 (to 2^21+1 thorough) around powers of two, 1-D and (n/8, 8), compared bit-for-bit with the scalar results; call histories on one array object (in-place changes of the input and of earlier results between calls, alternating units and functions, released/re-created arrays) compared with the scalar calls.  Array calling conventions (input bit-identical after the call, result not sharing memory with it, shape, repeatability, int arrays, array round trips reusing the original object) on ~280 inputs per unit as float64 1-D / strided view / 2-D / transposed view / 0-d / 1-element / read-only, float32, int64, list.  radians: the same with multiples of pi/4, neighbours of k*pi/2 computed three ways '
+                            'uniform and log-uniform random magnitudes up to 1e6.  Large magnitudes (1e5..1e6 rad, to 6e7 deg, neighbours of 2*pi*k for k to 159154).  Composed arrays (all in range / all far / only wrap neighbours / one foreign element first, middle, last / interleaved) vs scalars.  Argument forms: Python int/bool, numpy int8..int64/uint8/bool scalars and arrays, 0-d arrays, lists/tuples (like arrays or TypeError/ValueError), masked arrays, float32/float16 (range and closeness in their own precision), positional/keyword/int/numpy-bool deg flag and its default; np.errstate raise/ignore/warn; NaN/inf elements (NaN out, neighbours untouched); earlier results re-checked at the end.  Array calls at lengths 0..262145 (to 2^21+1 thorough) around powers of two, 1-D and (n/8, 8), compared bit-for-bit with the scalar results; call histories on one array object (in-place changes of the input and of earlier results between calls, alternating units and functions, released/re-created arrays) compared with the scalar calls.  Array calling conventions (input bit-identical after the call, result not sharing memory with it, shape, repeatability, int arrays, array round trips reusing the original object) on ~280 inputs per unit as float64 1-D / strided view / 2-D / transposed view / 0-d / 1-element / read-only, float32, int64, list.  radians: the same with multiples of pi/4, neighbours of k*pi/2 computed three ways '
                             '(k*math.pi/2, k*(math.pi/2), correctly rounded k*pi/2), grid step 1/%d over [-19,19].  Each input is evaluated by both functions as Python float, '
-                            'numpy scalar, 1-D array and strided 2-D array, compared with the exact SPEC (range exactly; closeness %d ulp at scale max(|x|, 512 deg / 8 rad)), '
+                            'numpy scalar, 1-D array and strided 2-D array, compared with the exact SPEC (range exactly; closeness within the per-input bound proved for the model, %d-ulp-at-scale for round trips), '
                             'and bit-for-bit with the PrimFloat model.  A case is distinct by (function, unit, input bits).'
                             % ('all 138241 points' if ctx.thorough else '3000 random points', 1024 if ctx.thorough else 64, TOL_ULPS))
     ctx.coverage['exhaustive'] = False
@@ -433,7 +487,7 @@ def run(ctx):
                          'rational approximation of pi used by the radian SPEC comparison: floor(pi*2^160)/2^160 (Machin, integer arithmetic, cross-checked against 50 digits)',
                          'translators/gen_c19.py (math.pi of the interpreter), harness/py/c19_impl.py, props/c19.py (generators, tolerance arithmetic in fractions.Fraction)']
     ctx.assumptions += ['inputs are finite binary64 values (NaN/infinity are outside the property)',
-                        'closeness tolerance: %d ulp at scale max(|x|, 512) degrees / max(|x|, 8) radians; beyond |x| ~ 2^58 only the range is checked' % TOL_ULPS]
+                        'closeness tolerance per input = the bound proved for the model (half an ulp of (quarter turn - x) + half ulps of the intermediate sums; radians: + the distance of the binary64 pi constants from pi over the turns removed); where that reaches half a turn only the range is checked; round trips: %d ulp at scale max(|x|, 512 deg / 8 rad)' % (2 * TOL_ULPS)]
 
 
 def replay(ctx, rec):
@@ -441,18 +495,25 @@ def replay(ctx, rec):
     if 'detail' in rec and 'case' in rec['detail']:
         case = rec['detail']['case']
     if case.get('semantics'):
-        unit = case['unit']
-        if case.get('input_kind') == 'large-array':
-            pts = {'deg': dedup(deg_points(ctx)), 'rad': dedup(rad_points(ctx))}       # same seed -> same inputs
-            impl = run_impl(ctx, dict({u: [x.hex() for x, _ in pts[u]] for u in pts}, sem={}, lengths=[case['length']] if case.get('length') is not None else array_lengths(ctx)))
-        else:
-            impl = run_impl(ctx, {'deg': [], 'rad': [], 'sem': {unit: case['inputs_hex']}})
+        # regenerate the inputs of the recorded run (same seed and tier) and repeat all array / form / history observations
+        import random
+        ctx.rng = random.Random(rec.get('seed', ctx.seed)); ctx.thorough = rec.get('tier', 'quick') == 'thorough'
+        gen_c19.generate()
+        corp = corpus_points()
+        pts = {'deg': dedup(corp['deg'] + deg_points(ctx)), 'rad': dedup(corp['rad'] + rad_points(ctx))}
+        sem = {u: sem_points(pts[u]) for u in pts}
+        lengths = [case['length']] if case.get('input_kind') == 'large-array' and case.get('length') is not None else array_lengths(ctx)
+        impl = run_impl(ctx, dict({u: [x.hex() for x, _ in pts[u]] for u in pts}, sem={u: [x.hex() for x in sem[u]] for u in sem},
+                                  lengths=lengths, groups={u: groups(pts[u], u) for u in pts}))
         shutil_rm(ctx)
-        hits = [it for it in impl['array_semantics']]
-        for it in hits:
+        hits = [it for it in impl['array_semantics'] if it['fn'] == case['fn'] and it['unit'] == case['unit']]
+        same = [it for it in hits if it['input_kind'] == case['input_kind'] and it['issue'] == case['issue']]
+        print('recorded: %s, %s, %s input: %s: %s' % (case['fn'], case['unit'], case['input_kind'], case['issue'], case['detail']))
+        for it in (same or hits):
             print('IMPL  %s, %s, %s input: %s: %s' % (it['fn'], it['unit'], it['input_kind'], it['issue'], it['detail']))
-        print('SPEC  a call leaves its argument untouched, returns a fresh array of the same shape, is repeatable, and agrees element-wise with the scalar calls')
-        print('recorded: %s / %s / %s' % (case['fn'], case['input_kind'], case['issue']))
+        if not hits:
+            print('IMPL  no array / argument-form / history issue observed for %s (%s) now' % (case['fn'], case['unit']))
+        print('SPEC  a call leaves its argument untouched, returns a fresh result of the same shape that equals, element by element and bit for bit, the scalar calls (which are compared with the exact SPEC and the model), whatever was called before')
         return 1 if hits else 0
     if 'x_hex' not in case:
         print(json.dumps(rec, indent=1)[:3000]); return 0
